@@ -143,6 +143,9 @@ fn random_spelling(rng: &mut Rng, t: &Target) -> (String, &'static str) {
 
 pub struct SchemaSet {
     pub sdl: String,
+    /// a second version of the same schema: every object type has one more field, declared FIRST (all later
+    /// fields get other positions); every query written for `sdl` is valid against it too
+    pub sdl_v2: String,
     pub json: String,
     pub queries: Vec<String>,
 }
@@ -153,10 +156,17 @@ pub fn schema_set(rng: &mut Rng, n_queries: usize) -> SchemaSet {
     let rk = RenderKnobs { json_wrapped: rng.chance(50), use_extend: rng.chance(30), ..RenderKnobs::default() };
     let sdl = s.to_sdl(&rk);
     let json = serde_json::to_string_pretty(&s.to_json(&rk)).unwrap();
+    let mut s2 = s.clone();
+    for t in s2.types.iter_mut() {
+        if let vcore::gen::schema::AType::Object { fields, .. } = t {
+            fields.insert(0, vcore::gen::schema::AField { name: "zzInsertedFirst".into(), ty: vcore::gen::schema::ATy::NonNull(Box::new(vcore::gen::schema::ATy::named("ID"))), dep: None });
+        }
+    }
+    let sdl_v2 = s2.to_sdl(&rk);
     // recursive fragments are C17's subject (a stack overflow would kill the driver process)
     let ok = OpKnobs { recursive_fragments: false, ..OpKnobs::default() };
     let queries = (0..n_queries).map(|_| random_doc(rng, &s, &ok).render()).collect();
-    SchemaSet { sdl, json, queries }
+    SchemaSet { sdl, sdl_v2, json, queries }
 }
 
 pub struct Common {
@@ -209,6 +219,7 @@ struct Layout {
     q_other: Vec<Target>,  // query written for schema B (dir d2), same base name as q_good[0]
     s_good: Vec<Target>,   // schema A in its formats
     s_other: Vec<Target>,  // schema B, same base name as s_good[0]
+    s_v2: Vec<Target>,     // a second version of schema A (same queries are valid, other code)
     bad: Vec<Target>,
     missing: Vec<Target>,
     unsupported: Vec<Target>,
@@ -219,7 +230,7 @@ fn layout(rng: &mut Rng, root: &str) -> Layout {
     let b = schema_set(rng, 1);
     let (d1, d2) = (format!("{}/d1", root), format!("{}/d2", root));
     let mut l = Layout { files: vec![], dirs: vec![format!("{}/sub", d1), format!("{}/sub", d2)], q_good: vec![], q_other: vec![], s_good: vec![],
-        s_other: vec![], bad: vec![], missing: vec![], unsupported: vec![] };
+        s_other: vec![], s_v2: vec![], bad: vec![], missing: vec![], unsupported: vec![] };
     let mk = |dir: &str, name: &str, kind: &'static str, text: &str| Target { dir: dir.into(), name: name.into(), kind, text: Some(text.into()) };
     l.q_good.push(mk(&d1, "q.graphql", "query", &a.queries[0]));
     l.q_good.push(mk(&d1, "q2.graphql", "query", &a.queries[1]));
@@ -229,6 +240,7 @@ fn layout(rng: &mut Rng, root: &str) -> Layout {
     l.s_good.push(mk(&d1, "schema.gql", "schema", &a.sdl));
     l.s_good.push(mk(&d1, "schema.graphqls", "schema", &a.sdl));
     l.s_other.push(mk(&d2, "schema.graphql", "schema", &b.sdl));
+    l.s_v2.push(mk(&d1, "schema_v2.graphql", "schema", &a.sdl_v2));
     l.bad.push(mk(&d1, "bad.graphql", "bad", BAD_TEXTS[rng.below(3)]));
     l.bad.push(mk(&d1, "bad.json", "bad", if rng.chance(50) { BAD_TEXTS[3] } else { "{\"foo\": 1}" }));
     l.unsupported.push(mk(&d1, "schema.txt", "unsupported", &a.sdl));
@@ -237,7 +249,7 @@ fn layout(rng: &mut Rng, root: &str) -> Layout {
     l.missing.push(Target { dir: d1.clone(), name: "missing.graphql".into(), kind: "missing", text: None });
     l.missing.push(Target { dir: format!("{}/nodir", root), name: "schema.graphql".into(), kind: "missing", text: None });
     l.missing.push(Target { dir: d2.clone(), name: "q2.graphql".into(), kind: "missing", text: None });
-    for t in l.q_good.iter().chain(&l.q_other).chain(&l.s_good).chain(&l.s_other).chain(&l.bad).chain(&l.unsupported) {
+    for t in l.q_good.iter().chain(&l.q_other).chain(&l.s_good).chain(&l.s_other).chain(&l.s_v2).chain(&l.bad).chain(&l.unsupported) {
         l.files.push((t.plain(), t.text.clone().unwrap()));
     }
     l
@@ -249,8 +261,9 @@ fn pick_opts(rng: &mut Rng) -> usize {
         60..=74 => 1,
         75..=82 => 2,
         83..=87 => 3,
-        88..=93 => 4,
-        _ => 5,
+        88..=92 => 4,
+        93..=96 => 5,
+        _ => 6,
     }
 }
 
@@ -331,7 +344,9 @@ pub fn random_history(rng: &mut Rng, idx: usize, common: &Common) -> Hist {
         let opts = pick_opts(rng);
         let (q, s): (Target, Target) = match rng.below(100) {
             // the ordinary call, in all spellings and schema formats
-            0..=44 => (rng.pick(&l.q_good).clone(), rng.pick(&l.s_good).clone()),
+            0..=37 => (rng.pick(&l.q_good).clone(), rng.pick(&l.s_good).clone()),
+            // the same query file against a second version of its schema (valid too, other code)
+            38..=44 => (rng.pick(&l.q_good).clone(), l.s_v2[0].clone()),
             // the other directory: same base names, other contents
             45..=54 => (l.q_other[0].clone(), l.s_other[0].clone()),
             // query of one schema against the other schema (generation error)
@@ -411,6 +426,27 @@ pub fn witness_histories(idx: &mut usize) -> Vec<Hist> {
             qfile: if q.text.is_some() && e == Entry::File { q.plain() } else { String::new() }, sfile: if s.text.is_some() { s.plain() } else { String::new() } }
     };
     for tf in [false, true] {
+        // one query file, two versions of its schema, in both orders (a cache entry must not outlive its schema)
+        new("one-query-two-schema-versions", &|_, l| {
+            vec![
+                f(l, &l.q_good[0], &l.s_good[0], Entry::File, 0, 0, 0),
+                f(l, &l.q_good[0], &l.s_v2[0], Entry::File, 0, 0, 0),
+                f(l, &l.q_good[1], &l.s_v2[0], Entry::File, 1, 0, 0),
+                f(l, &l.q_good[1], &l.s_good[0], Entry::File, 1, 0, 0),
+                f(l, &l.q_good[0], &l.s_good[0], Entry::File, 0, 0, 0),
+                f(l, &l.q_good[0], &l.s_v2[0], Entry::Str, 0, 0, 0),
+            ]
+        }, tf);
+        // the derive macro's option set (query_file set) on the same file several times
+        new("derive-options-with-query-file-repeated", &|_, l| {
+            vec![
+                f(l, &l.q_good[0], &l.s_good[0], Entry::File, 6, 0, 0),
+                f(l, &l.q_good[0], &l.s_good[0], Entry::File, 6, 0, 0),
+                f(l, &l.q_good[1], &l.s_good[0], Entry::File, 6, 0, 0),
+                f(l, &l.q_good[0], &l.s_good[0], Entry::File, 6, 1, 0),
+                f(l, &l.q_good[0], &l.s_good[0], Entry::File, 0, 0, 0),
+            ]
+        }, tf);
         // a failed call between two good ones (the old code poisoned the mutex)
         new("failed-call-between-good-calls", &|_, l| {
             vec![
